@@ -336,13 +336,50 @@ func swapInGapsNs(seq []byte) []byte {
 // 	return header, nil
 // }
 
+// newlineTerminated passes a stream on and makes sure that it ends in a newline: the sam reader only
+// returns a record once it has seen the end of its line, so the last record of a file whose last line
+// is not terminated would be dropped without an error
+type newlineTerminated struct {
+	r    io.Reader
+	last byte
+	seen bool
+	eof  bool
+}
+
+func (n *newlineTerminated) Read(p []byte) (int, error) {
+	if len(p) == 0 {
+		return 0, nil
+	}
+	if n.eof {
+		if n.seen && n.last != '\n' {
+			n.last = '\n'
+			p[0] = '\n'
+			return 1, nil
+		}
+		return 0, io.EOF
+	}
+	k, err := n.r.Read(p)
+	if k > 0 {
+		n.last = p[k-1]
+		n.seen = true
+	}
+	if err == io.EOF {
+		n.eof = true
+		if k > 0 {
+			return k, nil
+		}
+		return n.Read(p)
+	}
+	return k, err
+}
+
 // groupSamRecords yields blocks of sam records that correspond to the same query
 // sequence (to a channel)
 func groupSamRecords(sam io.Reader, cHeader chan biogosam.Header, chnl chan samRecords, cdone chan bool, cerr chan error) {
 
 	var err error
 
-	s, err := biogosam.NewReader(sam)
+	s, err := biogosam.NewReader(&newlineTerminated{r: sam})
 	if err != nil {
 		cerr <- err
 		return
